@@ -235,6 +235,10 @@ class CaseOracle:
                         # resolves the type to. (A value shared by components of different blueprints may legitimately be resolved
                         # in either scope; singletons are built once for every scope that sees them.)
                         want = set(m.resolve(m.reg[u][0], t) for u in users)
+                        if hid is not None and hid in m.reg:
+                            # "at that route": what the blueprint of the route itself designates is always acceptable (the
+                            # compiler resolves the dependencies of inherited middlewares in the scope of the route they serve)
+                            want.add(m.resolve(m.reg[hid][0], t))
                         want.discard(None)
                         if want and origin not in want and self.ctors[c]["lc"] != "singleton":
                             self.stats["ctor_inputs_judged_by_users"] = self.stats.get("ctor_inputs_judged_by_users", 0) + 1
